@@ -59,10 +59,27 @@ func (fr *frame) call(x ssa.CallInstruction, st *State) {
 	_ = fx
 }
 
-// callFuncParam: a call through a function-typed parameter that carries an abstract contract
-// (`//@ func <fn>` ... `fparam doParse satisfies <schema>`). Not supported yet.
+// callFuncParam: a call through a function-typed parameter that carries an abstract contract:
+// `fparam <name> <schema>` in the enclosing function's contract. The schema's clauses speak about the
+// receiver `p`, which is the enclosing function's own parameter p.
 func (fr *frame) callFuncParam(x ssa.CallInstruction, st *State) Val {
-	panic(unsupported("dynamic call " + x.String()))
+	fx := fr.fx
+	cc := x.Common()
+	par, ok := cc.Value.(*ssa.Parameter)
+	if !ok || fx.c == nil || fx.c.FParams[par.Name()] == "" {
+		panic(unsupported("dynamic call " + x.String()))
+	}
+	sc := fx.g.schemaByName(fx.c.FParams[par.Name()])
+	if sc == nil {
+		panic(contractErr("unknown schema " + fx.c.FParams[par.Name()]))
+	}
+	pv, ok := fx.penv["p"]
+	if !ok {
+		panic(unsupported("fparam call in a function without parameter p"))
+	}
+	sig := par.Type().Underlying().(*types.Signature)
+	vars := map[string]TV{"p": pv}
+	return fr.applyContractEnv(x, sc.C, "fparam "+par.Name(), sig, vars, nil, nil, st)
 }
 
 func (fr *frame) builtin(x ssa.CallInstruction, b *ssa.Builtin, st *State) Val {
@@ -163,20 +180,64 @@ func (fr *frame) callStatic(x ssa.CallInstruction, callee *ssa.Function, args []
 	if c2 == nil {
 		panic(unsupported("call to function without contract: " + fx.g.funcName(callee)))
 	}
+	if len(c2.FParams) > 0 {
+		names, _ := paramNames(callee)
+		var recvAddr string
+		for i, n := range names {
+			if n == "p" {
+				if pv, ok := args[i].(PtrV); ok {
+					recvAddr = pv.Addr
+				}
+			}
+		}
+		for i, n := range names {
+			schema, ok := c2.FParams[n]
+			if !ok {
+				continue
+			}
+			fv, isF := args[i].(FuncV)
+			if !isF || fv.Fn == nil || len(fv.Bind) != 1 || !strings.Contains(fv.Fn.Synthetic, "bound method") {
+				panic(unsupported("function argument of " + c2.Func + " is not a method value"))
+			}
+			rp, isP := fv.Bind[0].(PtrV)
+			if !isP || rp.Addr != recvAddr {
+				panic(unsupported("method value passed to " + c2.Func + " is not bound to the same parser"))
+			}
+			m := fx.g.prog.FuncValue(fv.Fn.Object().(*types.Func))
+			mc := fx.g.contractFor(m)
+			if !fx.g.satisfiesSchema(mc, schema) {
+				panic(unsupported(fmt.Sprintf("method %s passed to %s does not carry schema %s", fx.g.funcName(m), c2.Func, schema)))
+			}
+			fx.g.noteUse(fx.c, mc)
+		}
+	}
 	return fr.applyContract(x, callee, nil, c2, args, st)
 }
 
 func (fr *frame) applyContract(x ssa.CallInstruction, callee *ssa.Function, method *types.Func, c2 *Contract, args []Val, st *State) Val {
+	return fr.applyContractEnv(x, c2, c2.Func, nil, nil, callee, args, st, method)
+}
+
+func (fr *frame) applyContractEnv(x ssa.CallInstruction, c2 *Contract, name string, sig0 *types.Signature, vars map[string]TV, callee *ssa.Function, args []Val, st *State, methods ...*types.Func) Val {
 	fx := fr.fx
 	s := fx.s
 	g := fx.g
 	pos := fx.posOf(x.Pos())
-	name := c2.Func
+	var method *types.Func
+	if len(methods) > 0 {
+		method = methods[0]
+	}
 	g.noteUse(fx.c, c2)
 	pre := st.clone()
 	var env *Env
 	var sig *types.Signature
-	if callee != nil {
+	if vars != nil {
+		sig = sig0
+		env = &Env{fx: fx, vars: vars, cur: pre, old: pre, pkg: fx.fn.Pkg.Pkg}
+		for _, l := range c2.Lets {
+			env.vars[l.Name] = fx.eval(l.E, env)
+		}
+	} else if callee != nil {
 		env = fx.calleeEnv(callee, c2, args, pre, pre)
 		sig = callee.Signature
 	} else {
@@ -216,9 +277,12 @@ func (fr *frame) applyContract(x ssa.CallInstruction, callee *ssa.Function, meth
 	// frame: havoc modifies
 	var locs []modLoc
 	for _, m := range c2.Modifies {
-		if callee != nil {
+		switch {
+		case vars != nil:
+			locs = append(locs, fx.modLocsEnv(env, m, pre)...)
+		case callee != nil:
 			locs = append(locs, fx.modLocs(callee, c2, m, args, pre)...)
-		} else {
+		default:
 			panic(unsupported("modifies on interface contract"))
 		}
 	}
@@ -229,7 +293,11 @@ func (fr *frame) applyContract(x ssa.CallInstruction, callee *ssa.Function, meth
 	for _, l := range locs {
 		arr := fx.heapLeaf(st, l.leaf, l.sort)
 		if l.addr == "" {
-			st.heap[l.leaf] = s.fresh("Hc!"+l.leaf, arrOf(l.sort))
+			nh := s.fresh("Hc!"+l.leaf, arrOf(l.sort))
+			st.heap[l.leaf] = nh
+			if l.except != "" {
+				fx.frameAxiom(nh, arr, l.except, pre.now, l.leaf)
+			}
 		} else {
 			c := s.fresh("hv!"+l.leaf, l.sort)
 			st.heap[l.leaf] = s.define("H!"+l.leaf, arrOf(l.sort), store(arr, l.addr, c))
@@ -270,6 +338,7 @@ func (fr *frame) applyContract(x ssa.CallInstruction, callee *ssa.Function, meth
 		res = fr.freshVal("ret!"+shortName(name), rt)
 		fr.assumeTypeFacts(st, res, rt)
 	}
+	fx.noteObj(res)
 	env2 := *env
 	env2.cur = st
 	env2.old = pre
@@ -341,14 +410,24 @@ func (fr *frame) checkFrameLoc(st *State, l modLoc, pos token.Position, callee s
 	if l.addr != "" {
 		al = append(al, app(">=", app("birth", l.addr), fx.pre.now))
 	}
+	if l.addr == "" && l.except != "" {
+		al = append(al, "false") // placeholder so that or() below is well-formed
+	}
 	for _, m := range c.Modifies {
 		for _, ml := range fx.modLocs(fx.fn, c, m, nil, fx.pre) {
-			if ml.leaf == l.leaf {
-				if ml.addr == "" {
-					al = append(al, "true")
-				} else if l.addr != "" {
-					al = append(al, eq(ml.addr, l.addr))
-				}
+			if ml.leaf != l.leaf {
+				continue
+			}
+			switch {
+			case ml.addr == "" && ml.except == "":
+				al = append(al, "true")
+			case ml.addr == "" && l.addr == "" && l.except != "":
+				// both "current or fresh": the callee's current object must be ours or fresh
+				al = append(al, or(eq(ml.except, l.except), app(">=", app("birth", l.except), fx.pre.now)))
+			case ml.addr == "" && l.addr != "":
+				al = append(al, eq(ml.except, l.addr))
+			case ml.addr != "" && l.addr != "":
+				al = append(al, eq(ml.addr, l.addr))
 			}
 		}
 	}
@@ -356,7 +435,7 @@ func (fr *frame) checkFrameLoc(st *State, l modLoc, pos token.Position, callee s
 	if goal == "true" {
 		return
 	}
-	fx.s.oblig("frame", "", append([]string{"C18", "frame"}, c.Props...), st.reach, goal, pos, "callee "+callee+" may write "+l.leaf+" outside modifies")
+	fx.s.oblig("frame", "", []string{"C18", "frame"}, st.reach, goal, pos, "callee "+callee+" may write "+l.leaf+" outside modifies")
 }
 
 // runDefers executes the deferred closures (LIFO) from state st. panicV non-nil = exceptional mode.
@@ -412,4 +491,50 @@ func (fx *fnExec) tryEvalBool(e *Expr, env *Env) (t string, ok bool) {
 		}
 	}()
 	return fx.evalBool(e, env), true
+}
+
+// frameAxiom: objects other than `except` that existed before `now` keep their value of the leaf.
+// Instead of a quantified axiom, the frame is instantiated for every object of the leaf's heap type that
+// the function holds a direct reference to (parameters, call results, local allocations): those are
+// the only such objects it can read without going through the modified object itself.
+func (fx *fnExec) frameAxiom(newArr, oldArr, except, now string, leaf string) {
+	ht := leaf
+	// the heap type is the leaf name up to the first field separator after the package-qualified type
+	for _, cand := range sortedKeys(fx.objs) {
+		if strings.HasPrefix(leaf, cand+".") && len(cand) < len(ht) {
+			ht = cand
+		}
+	}
+	if ht == leaf {
+		return
+	}
+	for _, x := range fx.objs[ht] {
+		if x == except {
+			continue
+		}
+		fx.s.assert(implies(and(not(eq(x, except)), app("<", app("birth", x), now)), eq(sel(newArr, x), sel(oldArr, x))))
+	}
+}
+
+// noteObj records a direct reference held by the function under verification.
+func (fx *fnExec) noteObj(v Val) {
+	switch x := v.(type) {
+	case PtrV:
+		if x.Path != "" || x.Addr == "0" || strings.HasPrefix(x.HT, "global:") {
+			return
+		}
+		if fx.objs == nil {
+			fx.objs = map[string][]string{}
+		}
+		for _, o := range fx.objs[x.HT] {
+			if o == x.Addr {
+				return
+			}
+		}
+		fx.objs[x.HT] = append(fx.objs[x.HT], x.Addr)
+	case TupleV:
+		for _, e := range x.V {
+			fx.noteObj(e)
+		}
+	}
 }
